@@ -35,13 +35,15 @@ LNestTyped == Lam1("e", Meth(Meth(Name("e"), "jets", <<>>), "Select", <<Lam1("j"
 LCut == Lam1("e", Cmp(">", Meth(Name("e"), "met", <<>>), IntC(1)))
 LMetTyped == Lam1("e", Meth(Name("e"), "met", <<IntC(4)>>))
 LCutTyped == Lam1("e", Cmp(">", Meth(Name("e"), "met", <<IntC(4)>>), IntC(1)))
+LKw == Lam1("e", CallK(Attr(Name("e"), "met"), <<>>, <<"a">>, <<Meth(Name("e"), "met", <<>>)>>))
+LKwTyped == Lam1("e", Meth(Name("e"), "met", <<Meth(Name("e"), "met", <<IntC(4)>>)>>))
 Emitted(lam, inType) == IF inType # "Evt" THEN lam
                         ELSE CASE lam = LNest -> LNestTyped [] lam = LMet -> LMetTyped
-                               [] lam = LCut -> LCutTyped [] OTHER -> lam
+                               [] lam = LCut -> LCutTyped [] lam = LKw -> LKwTyped [] OTHER -> lam
 StreamType(op, lam, inType) ==
     CASE op = "Where" -> inType
       [] inType # "Evt" -> "Any"
-      [] op = "Select" /\ lam = LMet -> "int"
+      [] op = "Select" /\ lam \in {LMet, LKw} -> "int"
       [] op = "SelectMany" /\ lam = LJets -> "Jet"
       [] op = "Select" /\ lam = LNest -> "Iterable[int]"
       [] OTHER -> "Any"
